@@ -616,16 +616,19 @@ def generate(rng, tier):
     # interleavings
     inter = ["hit", "hit2", "stream", "stream2", "crash", "abort403", "form", "json", "debug-info", "auth-none", "auth-ok",
              "item", "item2", "item", "item2", "abort418", "raw", "404", "range", "login", "static", "listing", "hit-post",
-             "badjson"]
+             "badjson", "norange", "range-multi", "range-bad", "file", "static-head", "redirect", "jsonres", "empty"]
     for _ in range(2500 if big else 200):
         k = rng.choice([2, 2, 3])
         kinds = [rng.choice(inter) for _ in range(k)]
         cases.append("C17 inter %d %s %d" % (rng.randrange(5), ",".join(kinds), rng.randrange(1 << 30)))
     if big:
-        for a, b in itertools.product(["hit", "stream", "crash", "debug-info", "auth-ok", "form"], repeat=2):
+        for a, b in itertools.product(["hit", "stream", "crash", "debug-info", "auth-ok", "form", "static", "range", "norange",
+                                       "file", "range-multi", "listing"], repeat=2):
             cases.append("C17 interall 0 %s,%s" % (a, b))
     else:
-        for a, b in [("hit", "stream"), ("debug-info", "404"), ("crash", "hit2"), ("item", "item2"), ("abort403", "abort418")]:
+        for a, b in [("hit", "stream"), ("debug-info", "404"), ("crash", "hit2"), ("item", "item2"), ("abort403", "abort418"),
+                     # a response object that exists already (held in an after hook) while another request is ranged
+                     ("static", "range"), ("norange", "range"), ("file", "range-multi"), ("range", "range-bad")]:
             cases.append("C17 interall 0 %s,%s" % (a, b))
     return cases
 
